@@ -20,7 +20,8 @@ from .. import custom, gen, model as M, refmodel as R
 RULE = ("cases from rng(seed, 14, 0, i): a file of 5..60 lines mixing all 10 supported line types (+2 registered custom types) in a legal order, ids from hostile classes, "
         "numbers rendered in every format float() accepts (repr, %.17e, +/-, leading zeros, '.5', '5.', underscores, E+0), 1-5 spaces between fields, trailing spaces, "
         "LF/CRLF, interleaved junk (comments, FIX lines, wrong-case tags, tag+tab, leading space, unknown tags, lines containing VT/FF/FS/GS/RS/NEL/LS/PS characters followed by a valid-looking record) and blank lines; parameter ids redefined / several ids. "
-        "distinct = fingerprint of the file text; non-trivial = >= 3 supported line types and >= 1 junk line.")
+        "distinct = fingerprint of the file text; non-trivial = >= 3 supported line types and >= 1 junk line."
+        " later additions: dataset-style quaternions (5-7 decimals), odd file names, several registered types accepting one tag, independence of loaded objects incl. measurements and offsets, fixed flags in the cross-entry-point signature.")
 REQ = ["eval:objects-match-tokenizer", "eval:warnings-match-junk-lines", "eval:junk-removal-changes-nothing", "eval:entry-points-agree", "eval:custom-types-claim-own-lines", "eval:reload-after-another-file-identical",
        "line:VERTEX_SE2", "line:VERTEX_SE3:QUAT", "line:VERTEX_XY", "line:VERTEX_TRACKXYZ", "line:EDGE_SE2", "line:EDGE_SE3:QUAT", "line:EDGE_SE2_XY", "line:EDGE_SE3_TRACKXYZ",
        "line:PARAMS_SE2OFFSET", "line:PARAMS_SE3OFFSET", "class:crlf", "class:several_param_ids", "class:junk:tag_tab", "class:junk:leading_space", "class:junk:wrong_case", "class:junk:control_chars", "class:file_name_with_percent_sign", "class:quaternion_written_with_5-7_decimals", "eval:loaded-objects-independent", "class:information_all_zero", "class:duplicate_edge_line"]
